@@ -1,4 +1,6 @@
 import PysnarkModel.Lemmas.Poseidon
+import PysnarkModel.Lemmas.Select
+import PysnarkModel.Props.C19
 import PysnarkModel.Spec.Curves
 import PysnarkModel.Gen.Constants
 /-!
@@ -8,7 +10,14 @@ import PysnarkModel.Gen.Constants
   model's own `LinComb` operations, compared with the real `poseidon_hash.py` on every run;
 * reference: `Spec/Poseidon.lean`, a plain `Nat`-modulo-`p` permutation and sponge written from
   the algorithm description;
-* parameters: `Gen/Poseidon.lean`, generated from `poseidon_constants.py` on every run.
+* parameters: `Gen/Poseidon.lean`, generated from `poseidon_constants.py` on every run;
+* parameter set in use: `Hash.paramsInUse`, the table entry of the backend name that the selection
+  model (`Model/Select.lean`, property C19, whose theorems are imported) reports — the code after
+  repair 98011bd; the selection theorems quantify over EVERY selection configuration.
+
+Recorded deviation (`C20_cex_derived_preimport`, a consequence of `C19_cex_derived_preimport`): a
+pre-imported derived zkinterface module is reported under the base name, so the zkinterface
+(BN254) set is used over the derived field; `C20_params_partial` excludes exactly that.
 
 Quantifiers: ALL parameter sets for the value statements (whenever the model returns); well-shaped
 parameter sets (`ParamsWF`, decidable, holds for the four table entries) for totality and counts;
@@ -16,7 +25,7 @@ ALL input values (negative, above the prime); every state whose modulus is posit
 `LinComb.ONE` has value 1 (i.e. outside guarded regions; needed only for exponent 0 and padding).
 -/
 namespace Pysnark
-open Pysnark.Hash Pysnark.Gen
+open Pysnark.Hash Pysnark.Gen Pysnark.Select
 
 /-! ## values -/
 
@@ -111,12 +120,12 @@ theorem C20_count_hash (P : PoseidonParams) (hP : ParamsWF P) (heven : P.rF % 2 
 
 /-- the four registered parameter sets are well shaped; the docstring's "400 constraints" -/
 theorem C20_table_wf : ∀ kP ∈ poseidonTable, ParamsWF kP.2 ∧ kP.2.rF % 2 = 0 ∧ 2 ≤ kP.2.t := by
-  decide +kernel
+  kdecide
 
 theorem C20_count_400 :
     permCount poseidon_zkinterface = 400 ∧ permCount poseidon_zkifbellman = 400 ∧
     permCount poseidon_zkifbulletproofs = 400 ∧ permCount poseidon_nobackend = 24 := by
-  decide +kernel
+  kdecide
 
 /-! ## padding -/
 
@@ -145,7 +154,7 @@ theorem C20_vectors_zkinterface :
             0x24febb87fed7462e23f6665ff9a0111f4044c38ee1672c1ac6b0637d34f24907,
             0x0eb08f6d809668a981c186beaf6110060707059576406b248e5d9cf6e78b3d3e,
             0x07748bc6877c9b82c8b98666ee9d0626ec7f5be4205f79ee8528ef1c4a376fc7] := by
-  decide +kernel
+  kdecide
 
 theorem C20_vectors_zkifbellman :
     (poseidonTable.lookup "zkifbellman").map
@@ -155,7 +164,7 @@ theorem C20_vectors_zkifbellman :
             0x2cc176fc26bc70737a696a9dfd1b636ce360ee76926d182390cdb7459cf585ce,
             0x4dc4e29d283afd2a491fe6aef122b9a968e74eff05341f3cc23fda1781dcb566,
             0x03ff622da276830b9451b88b85e6184fd6ae15c8ab3ee25a5667be8592cce3b1] := by
-  decide +kernel
+  kdecide
 
 theorem C20_vectors :
     Spec.Poseidon.permute poseidon_zkinterface Spec.bn254_r [0, 1, 2, 3, 4] =
@@ -170,11 +179,11 @@ theorem C20_vectors :
        0x2cc176fc26bc70737a696a9dfd1b636ce360ee76926d182390cdb7459cf585ce,
        0x4dc4e29d283afd2a491fe6aef122b9a968e74eff05341f3cc23fda1781dcb566,
        0x03ff622da276830b9451b88b85e6184fd6ae15c8ab3ee25a5667be8592cce3b1] := by
-  decide +kernel
+  kdecide
 
 /-- the moduli the vectors are computed over are the backends' moduli -/
 theorem C20_moduli : Spec.bn254_r = zkifModulus ∧ Spec.bls12_381_r = bellmanModulus ∧
-    Spec.curve25519_l = bulletproofsModulus := by decide +kernel
+    Spec.curve25519_l = bulletproofsModulus := by kdecide
 
 /-! ## the parameter table and the parameter set in use -/
 
@@ -192,40 +201,275 @@ theorem C20_params_table :
     (poseidonTable.lookup "nobackend").any (fun P => P.rF == 2 && P.rP == 2 && P.a == 3 &&
       P.t == 5 && P.roundConstants.all (·.all (· == 1)) && P.matrix.all (·.all (· == 1))) = true ∧
     poseidonTable.map (·.1) = ["zkinterface", "zkifbellman", "zkifbulletproofs", "nobackend"] := by
-  decide +kernel
+  kdecide
 
-/-- with the environment variable set to a zkinterface backend the registered set is used;
-other backends: `NotImplementedError` -/
-theorem C20_params_env :
-    lookupParams (some "zkinterface") = some poseidon_zkinterface ∧
-    lookupParams (some "zkifbellman") = some poseidon_zkifbellman ∧
-    lookupParams (some "zkifbulletproofs") = some poseidon_zkifbulletproofs ∧
-    lookupParams (some "snarkjs") = none ∧ lookupParams (some "qaptools") = none ∧
-    lookupParams (some "libsnark") = none :=
-  ⟨rfl, rfl, rfl, rfl, rfl, rfl⟩
+/-- a fingerprint of a parameter set with decidable equality (`PoseidonParams` itself carries
+none): `[t, R_F, R_P, a]`, then the first row of the round constants, then the first row of the matrix.  The harness
+compares the same tuple on the real module's `constants` object. -/
+def fingerprint (P : PoseidonParams) : List Nat :=
+  [P.t, P.rF, P.rP, P.a] ++ P.roundConstants.headD [] ++ P.matrix.headD []
 
-/-- RECORDED DEFECT: the parameter set is keyed on the ENVIRONMENT VARIABLE with fallback
-`"nobackend"`, and the table has a toy `"nobackend"` entry (2 full + 2 partial rounds, all
-constants 1).  With `PYSNARK_BACKEND` unset — backend selected by pre-importing a backend module or
-by auto-detection — the gadget hashes with the toy parameters, whatever backend is active. -/
-theorem C20_cex_toy_fallback :
-    lookupParams none = some poseidon_nobackend ∧
-    poseidon_nobackend.rF = 2 ∧ poseidon_nobackend.rP = 2 ∧
-    lookupParams none ≠ lookupParams (some "zkinterface") := by
-  refine ⟨rfl, rfl, rfl, ?_⟩
-  intro h
-  have : (lookupParams none).map (·.rF) = (lookupParams (some "zkinterface")).map (·.rF) := by rw [h]
-  exact absurd this (by decide +kernel)
+/-- the table has four distinct keys and four pairwise different parameter sets, so "which set is
+in use" can be read off a fingerprint and names its key -/
+theorem C20_table_distinct :
+    (poseidonTable.map (·.1)).Nodup ∧ (poseidonTable.map fun kP => fingerprint kP.2).Nodup := by
+  kdecide
 
-/-- under the toy parameters the "hash" is degenerate: the all-ones matrix makes every state
-element equal after one round, so the four outputs coincide and the inputs of a block can be
-permuted without changing the digest (a collision) -/
-theorem C20_cex_toy_degenerate :
+/-- a parameter set is registered under ONE name -/
+theorem C20_params_key_injective (a b : String) (P : PoseidonParams)
+    (ha : lookupParams a = some P) (hb : lookupParams b = some P) : a = b :=
+  lookup_key_injective fingerprint poseidonTable C20_table_distinct.2 a b P ha hb
+
+/-- what `poseidon_hash.py` does with each reported backend name, on the table as extracted -/
+theorem C20_params_of_name :
+    paramsOfName "zkinterface" = .params poseidon_zkinterface ∧
+    paramsOfName "zkifbellman" = .params poseidon_zkifbellman ∧
+    paramsOfName "zkifbulletproofs" = .params poseidon_zkifbulletproofs ∧
+    paramsOfName "nobackend" = .params poseidon_nobackend ∧
+    paramsOfName "snarkjs" = .notImplemented ∧ paramsOfName "qaptools" = .notImplemented ∧
+    paramsOfName "libsnark" = .notImplemented ∧ paramsOfName "libsnarkgg" = .notImplemented :=
+  ⟨rfl, rfl, rfl, rfl, rfl, rfl, rfl, rfl⟩
+
+/-- THE PARAMETER SET IN USE IS THAT OF THE SELECTED BACKEND — for EVERY selection configuration
+(any registry, any set of pre-imported modules, any `PYSNARK_BACKEND` value or none, any
+loadability, IPython or not), i.e. however the backend came to be selected: if the selection code
+reports name `n`, the set in use is the table entry for `n`, and `NotImplementedError` is raised
+when the table has none; if the selection itself fails there is no parameter set at all.  The
+environment variable plays no role beyond its role in `select`; there is no fallback key. -/
+theorem C20_params_selected (c : Config) :
+    (∀ n m u errs, select c = .ok n m u errs →
+      (∀ P, poseidonTable.lookup n = some P → paramsInUse c = .params P) ∧
+      (poseidonTable.lookup n = none → paramsInUse c = .notImplemented)) ∧
+    (∀ m, select c = .importError m → paramsInUse c = .runtimeFails) ∧
+    (∀ errs, select c = .noBackend errs → paramsInUse c = .runtimeFails) := by
+  refine ⟨?_, ?_, ?_⟩
+  · intro n m u errs h
+    constructor
+    · intro P hP
+      simp only [paramsInUse, h, paramsOfName, lookupParams, hP]
+    · intro hP
+      simp only [paramsInUse, h, paramsOfName, lookupParams, hP]
+  · intro m h; simp only [paramsInUse, h]
+  · intro errs h; simp only [paramsInUse, h]
+
+/-- … by pre-import: the first pre-imported registry module's name keys the lookup, whatever the
+environment variable says -/
+theorem C20_params_preimport (c : Config) (a b : List (String × String)) (e : String × String)
+    (hreg : c.registry = a ++ e :: b) (ha : ∀ x ∈ a, x.2 ∉ c.preimported)
+    (he : e.2 ∈ c.preimported) : paramsInUse c = paramsOfName e.1 := by
+  simp only [paramsInUse, (C19_preimport c a b e hreg ha he).1]
+
+/-- … by environment variable (nothing pre-imported, a registered name): that name keys the
+lookup if its module loads; if not, the import error propagates — no parameters, no fallback -/
+theorem C20_params_env (c : Config) (v m : String) (nd : (c.registry.map Prod.fst).Nodup)
+    (npre : NothingPreimported c) (henv : c.env = some v) (hmem : (v, m) ∈ c.registry) :
+    (c.loadable m = true → paramsInUse c = paramsOfName v) ∧
+    (c.loadable m = false → paramsInUse c = .runtimeFails) := by
+  obtain ⟨h1, h2, _⟩ := C19_env_known c v m nd npre henv hmem
+  exact ⟨fun hl => by simp only [paramsInUse, h1 hl], fun hl => by simp only [paramsInUse, h2 hl]⟩
+
+/-- … by auto-detection (nothing pre-imported, no registered name in the environment, no
+IPython): the first loadable registry entry's name keys the lookup -/
+theorem C20_params_auto (c : Config) (a b : List (String × String)) (e : String × String)
+    (npre : NothingPreimported c) (henv : EnvUnnamed c) (hipy : c.ipython = false)
+    (hreg : c.registry = a ++ e :: b) (ha : ∀ x ∈ a, c.loadable x.2 = false)
+    (he : c.loadable e.2 = true) : paramsInUse c = paramsOfName e.1 := by
+  simp only [paramsInUse, (C19_auto_first_loadable c a b e npre henv hipy hreg ha he).1]
+
+/-- … under IPython with nothing named: the hard-coded `nobackend` -/
+theorem C20_params_ipython (c : Config) (npre : NothingPreimported c) (henv : EnvUnnamed c)
+    (hipy : c.ipython = true) (hl : c.loadable ipythonModule = true) :
+    paramsInUse c = paramsOfName ipythonName := by
+  simp only [paramsInUse, (C19_ipython c npre henv hipy hl).1]
+
+/-! ### the toy `"nobackend"` set -/
+
+/-- Over the real registry, in EVERY configuration in which a backend is selected: the toy
+`"nobackend"` parameter set (2 full + 2 partial rounds, all constants 1) is in use IF AND ONLY IF
+the selected backend is `nobackend` — the module receiving the constraints is `pysnark.nobackend`
+(which records nothing and works modulo 10000).  It is the set registered for that backend, not a
+fallback: a real backend never hashes with it. -/
+theorem C20_toy_iff_nobackend (c : Config) (hreg : c.registry = Gen.backends) (n m : String)
+    (u : Bool) (errs : List String) (h : select c = .ok n m u errs) :
+    ((∃ P, paramsInUse c = .params P ∧ lookupParams "nobackend" = some P) ↔ n = "nobackend") ∧
+    (n = "nobackend" ↔ m = "pysnark.nobackend") := by
+  have hin : paramsInUse c = paramsOfName n := by simp only [paramsInUse, h]
+  refine ⟨⟨?_, ?_⟩, ?_⟩
+  · rintro ⟨P, hP, hnb⟩
+    rw [hin] at hP
+    unfold paramsOfName at hP
+    cases hl : lookupParams n with
+    | none => rw [hl] at hP; cases hP
+    | some Q =>
+      rw [hl] at hP
+      injection hP with hQ
+      subst hQ
+      exact C20_params_key_injective _ _ _ hl hnb
+  · rintro rfl
+    exact ⟨poseidon_nobackend, hin, rfl⟩
+  · have hmem : (n, m) ∈ Gen.backends := by
+      rcases select_ok_mem c n m u errs h with h' | h'
+      · rwa [hreg] at h'
+      · rw [h']; exact C19_ipython_pair_registered
+    simp only [Gen.backends, List.mem_cons, Prod.mk.injEq, List.not_mem_nil, or_false] at hmem
+    rcases hmem with ⟨rfl, rfl⟩ | ⟨rfl, rfl⟩ | ⟨rfl, rfl⟩ | ⟨rfl, rfl⟩ | ⟨rfl, rfl⟩ | ⟨rfl, rfl⟩ |
+      ⟨rfl, rfl⟩ | ⟨rfl, rfl⟩ <;> decide
+
+/-- `nobackend` CAN be the backend actually selected without being named: it is the last registry
+entry, so auto-detection reaches it — exactly when every other registry module fails to load (and
+under IPython it is hard-coded, `C20_params_ipython`).  The toy set is then the set registered for
+the backend actually selected. -/
+theorem C20_toy_by_auto_only_if_nothing_else_loads (c : Config) (hreg : c.registry = Gen.backends)
+    (hauto : usedAuto c = true) (m : String) (u : Bool) (errs : List String)
+    (h : select c = .ok "nobackend" m u errs) :
+    ∀ e ∈ Gen.backends, e.1 ≠ "nobackend" → c.loadable e.2 = false := by
+  obtain ⟨a, b, hsplit, ha, _, _⟩ := usedAuto_ok_split c hauto h
+  rw [hreg] at hsplit
+  have hm : m = "pysnark.nobackend" :=
+    ((C20_toy_iff_nobackend c hreg _ m u errs h).2).mp rfl
+  subst hm
+  have hfront : Gen.backends = Gen.backends.dropLast ++ [("nobackend", "pysnark.nobackend")] := by
+    decide
+  have hnot : (("nobackend", "pysnark.nobackend") : String × String) ∉ Gen.backends.dropLast := by
+    decide
+  obtain ⟨rfl, _⟩ := split_unique_last _ a b _ hnot (hsplit.symm.trans hfront)
+  intro e he hne
+  rw [hfront] at he
+  rcases List.mem_append.mp he with he | he
+  · exact ha e he
+  · simp only [List.mem_singleton] at he
+    exact absurd (by rw [he]) hne
+
+/-- REGRESSION STATEMENT for the repaired defect (`fixed: 98011bd`; before the repair the lookup
+was keyed on `os.environ["PYSNARK_BACKEND"]` with fallback `"nobackend"`, so these three
+configurations hashed with the toy set).  With the variable UNSET, a zkinterface backend selected
+by pre-import, or by auto-detection (everything before it unloadable), hashes with ITS registered
+set; a conflicting value in the variable does not change the set of a pre-imported backend; and in
+general no configuration selecting a backend other than `nobackend` uses the toy set. -/
+theorem C20_regress_toy_fallback :
+    paramsInUse { registry := Gen.backends, preimported := ["pysnark.zkinterface.backend"],
+                  env := none, loadable := fun _ => true, ipython := false }
+      = .params poseidon_zkinterface ∧
+    paramsInUse { registry := Gen.backends, preimported := ["pysnark.zkinterface.backend"],
+                  env := some "nobackend", loadable := fun _ => true, ipython := false }
+      = .params poseidon_zkinterface ∧
+    paramsInUse { registry := Gen.backends, preimported := [], env := none,
+                  loadable := fun m => !(["pysnark.libsnark.backend", "pysnark.libsnark.backendgg",
+                    "pysnark.qaptools.backend", "pysnark.snarkjsbackend"].contains m),
+                  ipython := false }
+      = .params poseidon_zkinterface ∧
+    poseidon_zkinterface.rF = 8 ∧ poseidon_zkinterface.rP = 60 ∧ poseidon_nobackend.rF = 2 ∧
+    (∀ (c : Config), c.registry = Gen.backends → ∀ n m u errs, select c = .ok n m u errs →
+      n ≠ "nobackend" → ∀ P, paramsInUse c = .params P → lookupParams "nobackend" ≠ some P) := by
+  refine ⟨rfl, rfl, rfl, rfl, rfl, rfl, ?_⟩
+  intro c hreg n m u errs h hn P hP hnb
+  exact hn (((C20_toy_iff_nobackend c hreg n m u errs h).1).mp ⟨P, hP, hnb⟩)
+
+/-- why the toy set must never serve a real backend: under it the "hash" is degenerate — the
+all-ones matrix makes every state element equal after one round, so the four outputs coincide and
+the inputs of a block can be permuted without changing the digest (a collision) -/
+theorem C20_toy_degenerate :
     Spec.Poseidon.hash poseidon_nobackend zkifModulus [1, 2, 3, 4] =
       Spec.Poseidon.hash poseidon_nobackend zkifModulus [4, 3, 2, 1] ∧
     Spec.Poseidon.hash poseidon_nobackend zkifModulus [1, 2, 3, 4] =
       List.replicate 4 6716221465836031107370471777127124650323930349870762019862241920123969963551 := by
-  decide +kernel
+  kdecide
+
+/-! ### interplay with the open finding `C19-derived-preimport` -/
+
+/-- names of the registered backends whose own source declares modulus `p` and for which a
+parameter set is registered: "the parameter sets registered for the field `p`" -/
+def registeredForField (p : Nat) : List String :=
+  (Gen.backends.filter fun e => nominalModulus e.2 == some p && (lookupParams e.1).isSome).map (·.1)
+
+/-- `import pysnark.zkinterface.backendbellman` (resp. `…backendbulletproofs`) before the runtime -/
+def derivedPreimportCfg (derived : String) : Config :=
+  { registry := Gen.backends, preimported := [derived, "pysnark.zkinterface.backend"], env := none,
+    loadable := fun _ => true, ipython := false }
+
+/-- RECORDED DEFECT (consequence of `C19_cex_derived_preimport`, reproduced on the real code).
+After `import pysnark.zkinterface.backendbellman` the runtime reports "zkinterface" while the
+field in effect is BLS12-381's.  `poseidon_hash.py` faithfully takes the set of the REPORTED name:
+the zkinterface (BN254) parameter set is used over the BLS12-381 field, although the set
+registered for that field is zkifbellman's; the permutation of `[0,1,2,3,4]` is neither the
+published zkinterface nor the published zkifbellman vector (first output below = the value the
+real code returns).  With `backendbulletproofs` the set in use is not even a set of elements of
+the field in effect (Curve25519's order is below some of the BN254 constants). -/
+theorem C20_cex_derived_preimport :
+    closedUnderImports (derivedPreimportCfg "pysnark.zkinterface.backendbellman").preimported = true ∧
+    select (derivedPreimportCfg "pysnark.zkinterface.backendbellman")
+      = .ok "zkinterface" "pysnark.zkinterface.backend" false [] ∧
+    paramsInUse (derivedPreimportCfg "pysnark.zkinterface.backendbellman")
+      = .params poseidon_zkinterface ∧
+    paramsInUse (derivedPreimportCfg "pysnark.zkinterface.backendbulletproofs")
+      = .params poseidon_zkinterface ∧
+    modulusInEffect (derivedPreimportCfg "pysnark.zkinterface.backendbellman").preimported
+      "pysnark.zkinterface.backend" = some Gen.bellmanModulus ∧
+    modulusInEffect (derivedPreimportCfg "pysnark.zkinterface.backendbulletproofs").preimported
+      "pysnark.zkinterface.backend" = some Gen.bulletproofsModulus ∧
+    registeredForField Gen.bellmanModulus = ["zkifbellman"] ∧
+    registeredForField Gen.bulletproofsModulus = ["zkifbulletproofs"] ∧
+    registeredForField Gen.zkifModulus = ["zkinterface"] ∧
+    fingerprint poseidon_zkinterface ≠ fingerprint poseidon_zkifbellman ∧
+    (Spec.Poseidon.permute poseidon_zkinterface Gen.bellmanModulus [0, 1, 2, 3, 4]).head? =
+      some 0x09e23e44d633bb7026de14251a0d51b5889c1708cccca2e0d16a2148dca558f0 ∧
+    (Spec.Poseidon.permute poseidon_zkifbellman Gen.bellmanModulus [0, 1, 2, 3, 4]).head? =
+      some 0x2a918b9c9f9bd7bb509331c81e297b5707f6fc7393dcee1b13901a0b22202e18 ∧
+    poseidon_zkinterface.roundConstants.all (·.all (· < Gen.bulletproofsModulus)) = false := by
+  refine ⟨by decide, by decide, rfl, rfl, by decide, by decide, by kdecide, by kdecide,
+    by kdecide, by kdecide, by kdecide, by kdecide, by kdecide⟩
+
+/-- the selection clause at full strength: in every configuration over the real registry
+(`sys.modules` closed under the import edges), the parameter set in use is the table entry of a
+registered backend whose declared field is the field in effect -/
+def C20_params_full : Prop :=
+  ∀ c : Config, c.registry = Gen.backends → closedUnderImports c.preimported = true →
+    ∀ n m u errs, select c = .ok n m u errs → ∀ P, paramsInUse c = .params P →
+      ∃ e ∈ Gen.backends, lookupParams e.1 = some P ∧
+        modulusInEffect (c.preimported ++ [m]) m = nominalModulus e.2
+
+theorem C20_params_full_false : ¬ C20_params_full := by
+  intro hfull
+  obtain ⟨e, he, hP, hmod⟩ := hfull (derivedPreimportCfg "pysnark.zkinterface.backendbellman") rfl
+    (by decide) "zkinterface" "pysnark.zkinterface.backend" false [] (by decide)
+    poseidon_zkinterface rfl
+  have hk : e.1 = "zkinterface" := C20_params_key_injective _ _ _ hP rfl
+  have he2 : e.2 = "pysnark.zkinterface.backend" := by
+    obtain ⟨e1, e2⟩ := e
+    simp only at hk
+    subst hk
+    simp only [Gen.backends, List.mem_cons, Prod.mk.injEq, List.not_mem_nil, or_false] at he
+    rcases he with ⟨h, _⟩ | ⟨h, _⟩ | ⟨h, _⟩ | ⟨h, _⟩ | ⟨_, h⟩ | ⟨h, _⟩ | ⟨h, _⟩ | ⟨h, _⟩ <;>
+      first | exact h | exact absurd h (by decide)
+  rw [he2] at hmod
+  revert hmod
+  decide
+
+/-- … and it holds wherever no derived backend module was pre-imported (the exclusion of
+`C19_name_identifies_partial`): the set in use is the table entry of the reported name, whose
+registry module is the module in use, working in the field its own source declares -/
+theorem C20_params_partial (c : Config) (hreg : c.registry = Gen.backends)
+    (hnd : ∀ d ∈ derivedModules, d ∉ c.preimported) (n m : String) (u : Bool) (errs : List String)
+    (h : select c = .ok n m u errs) :
+    paramsInUse c = paramsOfName n ∧ (n, m) ∈ Gen.backends ∧
+    modulusInEffect (c.preimported ++ [m]) m = nominalModulus m ∧
+    (∀ P, paramsInUse c = .params P →
+      ∃ e ∈ Gen.backends, lookupParams e.1 = some P ∧
+        modulusInEffect (c.preimported ++ [m]) m = nominalModulus e.2) := by
+  have hin : paramsInUse c = paramsOfName n := by simp only [paramsInUse, h]
+  obtain ⟨hlook, hmod⟩ := C19_name_identifies_partial c hreg hnd n m u errs h
+  have hmem : (n, m) ∈ Gen.backends := by
+    rcases select_ok_mem c n m u errs h with h' | h'
+    · rwa [hreg] at h'
+    · rw [h']; exact C19_ipython_pair_registered
+  refine ⟨hin, hmem, hmod, ?_⟩
+  intro P hP
+  refine ⟨(n, m), hmem, ?_, hmod⟩
+  rw [hin] at hP
+  unfold paramsOfName at hP
+  cases hl : lookupParams n with
+  | none => rw [hl] at hP; cases hP
+  | some Q => rw [hl] at hP; injection hP with hQ; rw [hQ]
 
 /-- RECORDED DEFECT (test suite): the vector published in `test_zkifbulletproofs_permutation` is
 the zkifbellman vector; its second entry is not even below the Curve25519 group order, and the
@@ -239,7 +483,7 @@ theorem C20_cex_bulletproofs_vector :
        2825491006183284213335590334684283088158733469171613014070341807546653171085,
        2925411636667260559086107353415442513071426715756558613079401269742747692964,
        5208642969692129922784740286135370386753404317849849192096120667241358387920] := by
-  decide +kernel
+  kdecide
 
 /-! ## subset-sum hash -/
 
@@ -276,7 +520,7 @@ def exOK : Bool :=
   | .error _ => false
 
 /-- the MODEL reproduces the published vector and the documented 400 constraints -/
-example : exOK = true := by decide +kernel
+example : exOK = true := by kdecide
 
 /-- ggh on mixed secret bits over a small modulus: value 1·3 + 0·5 + 1·7 = 10 ≡ 3 (mod 7), no
 constraint -/
@@ -284,6 +528,39 @@ example :
     (match gghHash [3, 5, 7] [.lc ⟨1, [(Wire.priv 0, 1)]⟩, .lc ⟨0, [(Wire.priv 1, 1)]⟩, .int 1]
         { p := 7, priv := [1, 0] } with
       | .ok (t, s) => t.value == 3 && s.cons.length == 0
-      | .error _ => false) = true := by decide +kernel
+      | .error _ => false) = true := by kdecide
+
+private def selCfg (pre : List String) (env : Option String) (unl : List String) (ipy : Bool) : Config :=
+  { registry := Gen.backends, preimported := pre, env := env,
+    loadable := fun m => !(unl.contains m), ipython := ipy }
+
+-- every selection path reaches a real backend and its registered set (the hypotheses of
+-- `C20_params_preimport/_env/_auto/_ipython` are satisfiable over the real registry) …
+example : paramsInUse (selCfg [] (some "zkifbellman") [] false) = .params poseidon_zkifbellman := rfl
+example : paramsInUse (selCfg ["pysnark.zkinterface.backend"] none [] false)
+    = .params poseidon_zkinterface := rfl
+example :
+    usedAuto (selCfg [] none ["pysnark.libsnark.backend", "pysnark.libsnark.backendgg",
+      "pysnark.qaptools.backend", "pysnark.snarkjsbackend"] false) = true := by decide
+example : paramsInUse (selCfg [] none [] true) = .params poseidon_nobackend := rfl
+-- … a backend without registered parameters gets `NotImplementedError` on every path, whatever
+-- the environment variable names, and a failing selection yields no parameters
+example : paramsInUse (selCfg ["pysnark.snarkjsbackend"] (some "zkinterface") [] false)
+    = .notImplemented := rfl
+example : paramsInUse (selCfg [] (some "snarkjs") ["pysnark.snarkjsbackend"] false)
+    = .runtimeFails := rfl
+-- `nobackend` IS reachable by auto-detection (premises of
+-- `C20_toy_by_auto_only_if_nothing_else_loads`): nothing else loads, the toy set is then the set
+-- of the backend actually selected
+example :
+    usedAuto (selCfg [] none (Gen.backends.dropLast.map Prod.snd) false) = true ∧
+    select (selCfg [] none (Gen.backends.dropLast.map Prod.snd) false)
+      = .ok "nobackend" "pysnark.nobackend" false (Gen.backends.dropLast.map Prod.snd) := by decide
+example : paramsInUse (selCfg [] none (Gen.backends.dropLast.map Prod.snd) false)
+    = .params poseidon_nobackend := rfl
+-- the exclusion of `C20_params_partial` is satisfiable and is violated by the recorded configuration
+example : (∀ d ∈ derivedModules, d ∉ (selCfg ["pysnark.zkinterface.backend"] none [] false).preimported) ∧
+    ¬ (∀ d ∈ derivedModules,
+        d ∉ (derivedPreimportCfg "pysnark.zkinterface.backendbellman").preimported) := by decide
 
 end Pysnark
